@@ -15,6 +15,7 @@ import (
 	"reduction.dev/reduction/dkv/storage"
 	"reduction.dev/reduction/dkv/wal"
 	"reduction.dev/reduction/util/size"
+	"reduction.dev/reduction/util/vhook"
 )
 
 var flushMemTablesQueue = bg.NewQueue(5)
@@ -59,6 +60,7 @@ func Open(options DBOptions, initCheckpoints []recovery.CheckpointHandle) *DB {
 }
 
 func New(options DBOptions) *DB {
+	options = verifTuneOptions(options)
 	// Default size to 64 MB
 	if options.MemTableSize == 0 {
 		options.MemTableSize = 64 * size.MB
@@ -97,6 +99,7 @@ func New(options DBOptions) *DB {
 		LevelSizeMultiplier:         10,
 		TargetTableSize:             int64(options.TargetFileSize),
 	}
+	verifTuneCompactor(compactor)
 
 	db := &DB{
 		mtables: memtable.NewList(&memtable.MemTableOptions{
@@ -184,6 +187,7 @@ func (db *DB) Delete(key []byte) {
 
 func (db *DB) Get(key []byte) (kv.Entry, error) {
 	sstables := db.currentSSTables()
+	vhook.At("dkv.get.after-levels", db)
 
 	// First try to get from the memtables
 	v, err := db.mtables.Get(key)
@@ -201,6 +205,7 @@ func (db *DB) Get(key []byte) (kv.Entry, error) {
 
 func (db *DB) ScanPrefix(prefix []byte, errOut *error) iter.Seq[kv.Entry] {
 	sstables := db.currentSSTables()
+	vhook.At("dkv.scan.after-levels", db)
 	iters := []iter.Seq[kv.Entry]{db.mtables.ScanPrefix(prefix, errOut), sstables.ScanPrefix(prefix, errOut)}
 	return kv.MergeEntries(iters)
 }
@@ -214,11 +219,14 @@ func (db *DB) Checkpoint(ckptID uint64) (wait func() (recovery.CheckpointHandle,
 	db.wal = db.wal.Rotate(db.fs)
 	db.checkpoints.Add(ckptID, db.sstables, prevWAL, db.seqNum)
 	db.mu.Unlock()
+	vhook.At("dkv.checkpoint.after-unlock", db)
 
 	return bg.Task2(func() (recovery.CheckpointHandle, error) {
+		vhook.At("dkv.checkpoint.before-wal-save", db)
 		if err := prevWAL.Save(); err != nil {
 			return recovery.CheckpointHandle{}, err
 		}
+		vhook.At("dkv.checkpoint.before-list-save", db)
 		uri, err := db.checkpoints.Save(db.fs)
 		if err != nil {
 			return recovery.CheckpointHandle{}, err
@@ -268,6 +276,7 @@ func (db *DB) rotateMemtable() {
 
 	// Write sealed tables to sstables
 	db.tasks.Enqueue(flushMemTablesQueue, func() error {
+		vhook.At("dkv.flush.start", db)
 		sealedTables := db.mtables.Sealed()
 
 		cs := &sst.ChangeSet{}
@@ -281,11 +290,13 @@ func (db *DB) rotateMemtable() {
 
 		// Replace the set of sstables, clear old memtables, clear wal entries all
 		// in one lock
+		vhook.At("dkv.flush.before-swap", db)
 		db.mu.Lock()
 		db.sstables = db.sstables.NewWithChangeSet(cs)
 		db.mtables.Dequeue(sealedTables)
 		db.wal.Truncate(db.sstables.LatestSeqNum)
 		db.mu.Unlock()
+		vhook.At("dkv.flush.after-swap", db)
 
 		// Run compact steps until there is no changeset
 		db.tasks.Enqueue(compactionQueue, func() error {
@@ -298,9 +309,11 @@ func (db *DB) rotateMemtable() {
 					return nil
 				}
 
+				vhook.At("dkv.compact.before-swap", db)
 				db.mu.Lock()
 				db.sstables = db.sstables.NewWithChangeSet(cs)
 				db.mu.Unlock()
+				vhook.At("dkv.compact.after-swap", db)
 			}
 		})
 
